@@ -130,6 +130,10 @@ def check_recursion(rep, rule, ctx, f, enum_name, callees, label, needle='RustTy
                 body = a['body']
                 called = any(re.search(rf'\b{re.escape(c)}\s*\((?:[^;{{}}]|\{{[^{{}}]*\}})*\b{name}\b', body) or re.search(rf'\b{name}\s*(?:\.\s*(?:as_ref|deref|as_mut)\s*\(\s*\)\s*)?\.\s*{re.escape(c)}\s*\(', body) for c in callees)
                 if not called:
+                    # the payload may be a collection that is iterated, its elements going to the callee
+                    lv = re.search(rf'for\s+(\w+)\s+in\s+&?\s*(?:mut\s+)?{name}\b', body) or re.search(rf'\b{name}\s*\.\s*iter(?:_mut)?\s*\(\s*\)[^;]*?\|\s*(\w+)\s*\|', body)
+                    if lv and any(re.search(rf'\b{re.escape(c)}\s*\((?:[^;{{}}]|\{{[^{{}}]*\}})*\b{lv.group(1)}\b', body) for c in callees):
+                        continue
                     if uses_ok and re.search(rf'\b{name}\b', body):
                         continue
                     if a.get('empty') or not re.search(rf'\b{name}\b', body):
